@@ -86,25 +86,30 @@ func preBlock(fw *formatWriter, source []byte, cursor *commonmark.Cursor) (child
 	switch k := curr.Kind(); k {
 	case commonmark.ParagraphKind:
 		if !isFirstParagraph(cursor) {
-			fw.s("\n")
+			separateBlock(fw, cursor)
 		}
 		return "", true
 	case commonmark.ThematicBreakKind:
-		if fw.hasWritten {
-			fw.s("\n---\n\n")
-		} else {
+		separateBlock(fw, cursor)
+		switch {
+		case !fw.hasWritten:
 			// Disambiguate from front matter.
-			fw.s("***\n\n")
+			fw.s("***\n")
+		case fw.startedLine && isFirstInListItem(cursor) && bytes.HasPrefix(spanSlice(source, cursor.ParentBlock().Child(0).Block().Span()), []byte("-")),
+			followsParagraphInTightItem(cursor):
+			// "- ---" would be a thematic break instead of a list item
+			// and "---" under a paragraph a setext heading underline.
+			fw.s("***\n")
+		default:
+			fw.s("---\n")
 		}
 		return "", true
 	case commonmark.ListKind:
-		if fw.hasWritten {
-			// Separate the list from what precedes it.
-			// (Without a blank line, a loose or ordered list
-			// may not be able to interrupt a preceding paragraph,
-			// and it would be taken into a preceding HTML block.)
-			fw.s("\n")
-		}
+		// Separate the list from what precedes it.
+		// (Without a blank line, a loose or ordered list
+		// may not be able to interrupt a preceding paragraph,
+		// and it would be taken into a preceding HTML block.)
+		separateBlock(fw, cursor)
 		return "", true
 	case commonmark.ListItemKind:
 		if cursor.Index() > 0 && !curr.IsTightList() {
@@ -120,9 +125,7 @@ func preBlock(fw *formatWriter, source []byte, cursor *commonmark.Cursor) (child
 		}
 		return childrenIndent, true
 	case commonmark.LinkReferenceDefinitionKind:
-		if fw.hasWritten {
-			fw.s("\n")
-		}
+		separateBlock(fw, cursor)
 		fw.s("[")
 		fw.s(curr.Child(0).Inline().LinkReference())
 		fw.s("]: ")
@@ -139,24 +142,18 @@ func preBlock(fw *formatWriter, source []byte, cursor *commonmark.Cursor) (child
 		fw.s("\n")
 		return "", false
 	case commonmark.BlockQuoteKind:
-		if fw.hasWritten {
-			fw.s("\n")
-		}
+		separateBlock(fw, cursor)
 		fw.s("> ")
 		return "> ", true
 	case commonmark.IndentedCodeBlockKind:
-		if fw.hasWritten {
-			fw.s("\n")
-		}
+		separateBlock(fw, cursor)
 		for i, n := 0, codeFenceLength(source, curr); i < n; i++ {
 			fw.s("`")
 		}
 		fw.s("\n")
 		return "", true
 	case commonmark.FencedCodeBlockKind:
-		if fw.hasWritten {
-			fw.s("\n")
-		}
+		separateBlock(fw, cursor)
 		c := [1]byte{codeFenceChar(source, curr)}
 		for i, n := 0, codeFenceLength(source, curr); i < n; i++ {
 			fw.b(c[:])
@@ -167,18 +164,14 @@ func preBlock(fw *formatWriter, source []byte, cursor *commonmark.Cursor) (child
 		fw.s("\n")
 		return "", true
 	case commonmark.ATXHeadingKind:
-		if fw.hasWritten {
-			fw.s("\n")
-		}
+		separateBlock(fw, cursor)
 		for i, n := 0, curr.HeadingLevel(); i < n; i++ {
 			fw.s("#")
 		}
 		fw.s(" ")
 		return "", true
 	case commonmark.SetextHeadingKind, commonmark.HTMLBlockKind:
-		if fw.hasWritten {
-			fw.s("\n")
-		}
+		separateBlock(fw, cursor)
 		return "", true
 	default:
 		return "", false
@@ -199,6 +192,65 @@ func isFirstParagraph(cursor *commonmark.Cursor) bool {
 	return false
 }
 
+// separateBlock writes what separates the block at the cursor from what was written before it:
+// nothing for the first block of a list item, which goes on the line of the item's marker
+// (a marker alone on its line could not interrupt a paragraph),
+// the end of the line in progress and nothing else between the blocks of a tight list item
+// (a blank line would make the list loose),
+// and a blank line otherwise.
+func separateBlock(fw *formatWriter, cursor *commonmark.Cursor) {
+	if !fw.hasWritten {
+		return
+	}
+	if fw.startedLine {
+		if isFirstInListItem(cursor) && !startsWithBareMarkers(cursor.Node().Block()) {
+			return
+		}
+		fw.s("\n")
+		return
+	}
+	if parent := cursor.ParentBlock(); parent != nil && parent.Kind() == commonmark.ListItemKind && parent.IsTightList() {
+		return
+	}
+	fw.s("\n")
+}
+
+// isFirstInListItem reports whether the block at the cursor directly follows the marker of a list item.
+func isFirstInListItem(cursor *commonmark.Cursor) bool {
+	parent := cursor.ParentBlock()
+	return parent != nil && parent.Kind() == commonmark.ListItemKind && cursor.Index() == 1 &&
+		parent.Child(0).Block().Kind() == commonmark.ListMarkerKind
+}
+
+// startsWithBareMarkers reports whether the first line of the block, if it is a list,
+// would consist of nothing but list markers:
+// together with the markers before it such a line could be a thematic break ("- - -").
+func startsWithBareMarkers(block *commonmark.Block) bool {
+	for block.Kind() == commonmark.ListKind && block.ChildCount() > 0 {
+		item := block.Child(0).Block()
+		if item.ChildCount() < 2 {
+			return true
+		}
+		block = item.Child(1).Block()
+		if block == nil {
+			return false
+		}
+	}
+	return false
+}
+
+// followsParagraphInTightItem reports whether the block at the cursor
+// is written on the line after a paragraph (or a link reference definition,
+// which is read from a paragraph), without a blank line between them.
+func followsParagraphInTightItem(cursor *commonmark.Cursor) bool {
+	parent := cursor.ParentBlock()
+	if parent == nil || parent.Kind() != commonmark.ListItemKind || !parent.IsTightList() || cursor.Index() < 1 {
+		return false
+	}
+	prev := parent.Child(cursor.Index() - 1).Block()
+	return prev != nil && (prev.Kind() == commonmark.ParagraphKind || prev.Kind() == commonmark.LinkReferenceDefinitionKind)
+}
+
 func postBlock(fw *formatWriter, source []byte, cursor *commonmark.Cursor) {
 	b := cursor.Node().Block()
 	switch b.Kind() {
@@ -207,7 +259,10 @@ func postBlock(fw *formatWriter, source []byte, cursor *commonmark.Cursor) {
 			fw.s("\n")
 		}
 	case commonmark.ListItemKind:
-		fw.s("\n")
+		if fw.startedLine {
+			// End the line of a marker without content or of a paragraph in a tight list.
+			fw.s("\n")
+		}
 	case commonmark.IndentedCodeBlockKind, commonmark.FencedCodeBlockKind:
 		c := [1]byte{codeFenceChar(source, b)}
 		for i, n := 0, codeFenceLength(source, b); i < n; i++ {
